@@ -4,11 +4,33 @@ description in the format of the translator's schema.json)."""
 INTS = [("u8", 1), ("u16", 2), ("u32", 4), ("u64", 8), ("usize", 8)]
 
 
+# field names a user may plausibly write, the names of the generated decoder's own locals among them (defect D10: a field
+# `curr_len: usize` was silently overwritten). Names that make the PINNED macro fail to compile (`bytes`, `v`,
+# `required_tags`, `actual_tags`: type errors, not silent misbehaviour) are left out.
+NAMES = ["len", "length", "size", "data", "value", "id", "count", "kind", "flags", "amount", "code", "text", "name", "index", "offset",
+         "n", "x", "i", "result", "status", "payload", "buf", "tag_no", "ty", "input", "output", "number", "total", "key", "curr_len",
+         "as_vec", "item", "remainder", "rest", "pos", "start", "end", "rv", "ret", "out", "tmp", "val", "field", "this", "other"]
+
+
 class Lab:
     def __init__(self, rng, max_fields=8, max_depth=3):
         self.rng, self.max_fields, self.max_depth = rng, max_fields, max_depth
         self.structs = []     # (name, ctrl, fields, exact)
         self.n = 0
+
+    def rename(self, fields):
+        """half of the structs get plausible field names instead of f0..fN (always `curr_len` / `len` for a usize field if there is one)"""
+        if not fields or self.rng.random() < 0.5:
+            return
+        # `curr_len` / `len` only for usize fields: with another type a capture by the decoder's counter is a compile error (reported as
+        # "generated well-formed structs must compile", without a failing input); with usize it is a silently wrong value
+        pool = [x for x in self.rng.sample(NAMES, len(NAMES)) if x not in ("curr_len", "len")]
+        us = [f for f in fields if f["rust_ty"] == "usize"]
+        for f, special in zip(us, self.rng.sample(["curr_len", "len"], 2)):
+            f["name"] = special
+        for f in fields:
+            if f["name"].startswith("f") and f["name"][1:].isdigit():
+                f["name"] = pool.pop()
 
     # ---------------------------------------------------------------- spellings of the two wrapper types
     def opt(self, rt):
@@ -65,6 +87,7 @@ class Lab:
         for i in range(self.rng.randint(1, 3)):
             rt, tj, ln, enc, _ = self.leaf(True, False)
             fields.append({"name": f"f{i}", "rust_ty": rt, "ty": tj, "tag": None, "tag_src": None, "length": ln, "encoding": enc})
+        self.rename(fields)
         self.structs.append({"name": "lab::" + name, "ctrl": None, "fields": fields})
         return name
 
@@ -140,6 +163,7 @@ class Lab:
         ctrl = None
         if allow_ctrl and depth == 0 and r.random() < 0.5:
             ctrl = [r.randrange(256), r.randrange(256)]
+        self.rename(fields)
         self.structs.append({"name": "lab::" + name, "ctrl": ctrl, "fields": fields})
         return name
 
